@@ -139,7 +139,11 @@ ViewPanics(o) ==
          \/ o.own.protocol.k = "panic" \/ o.own.astr.k = "panic" \/ o.own.disp.k = "panic" \/ o.own.adisp.k = "panic"
 
 C03_Fails(b, v) ==
-    LET p(e) == IF v[e].k = "panic" THEN {<< "C03", "panic", e >>} ELSE {}
+    LET p(e) == IF v[e].k = "panic" THEN {<< "C03", "panic", e >>}
+                (* Display with every precision / width / flag, Debug plain and pretty, of the error value *)
+                ELSE IF IsErr(v[e]) /\ "fmt_ok" \in DOMAIN v[e] /\ ~v[e].fmt_ok THEN {<< "C03", "formatting-an-error-panics", e >>}
+                ELSE IF e = "auto" /\ IsErr(v[e]) /\ "fmt_ok" \in DOMAIN v[e].r /\ ~v[e].r.fmt_ok THEN {<< "C03", "formatting-an-error-panics", e >>}
+                ELSE {}
         vw(e) == IF Applicable(v, e) /\ ViewPanics(v[e]) THEN {<< "C03", "view-panic", e >>} ELSE {}
         v2vw == IF Applicable(v, "v2") /\ IsOk(v["v2"]) /\ (v["v2"].vw.k # "ok" \/ v["v2"].own.k # "ok")
                 THEN {<< "C03", "view-panic", "v2" >>} ELSE {}
